@@ -13,6 +13,8 @@ struct alw_ctl {
   long fail_at;       /* 1-based index of the call to fail, 0 = none */
   long fail_at2;      /* optional second failing call */
   int log_n; unsigned char log[4096]; /* kinds of the intercepted calls, in order */
+  long salt;          /* varies the errno chosen for a failed call */
+  int force_move;     /* every successful mremap relocates the mapping (the old range becomes inaccessible) */
   int guard_code;     /* reserve PROT_NONE pages behind the library-managed (PROT_EXEC) code buffer */
   int guard_files;    /* place the bytes read from a file / mapped from a file directly in front of a PROT_NONE page */
   long failed_index; int failed_kind; /* what was failed */
